@@ -1431,7 +1431,10 @@ class Collection(object):
             filter = {}
         if not isinstance(filter, Mapping):
             filter = {'_id': filter}
-        to_delete = list(self.find(filter))
+        validate_is_mapping('filter', filter)
+        # Read the stored documents, not find()'s copies: under tz_aware=True those carry aware
+        # datetimes, which are not the keys the documents are stored under.
+        to_delete = list(self._iter_documents(filter))
         deleted_count = 0
         for doc in to_delete:
             doc_id = doc['_id']
